@@ -355,7 +355,7 @@ Section WS.
             (set_H w1 hi (mkH (h_s h) (h_id h) (h_cached h) (Some ci) (h_dk h)), inl ci)
         | None =>
             match load_file w h with
-            | inr e => (w, inr e)
+            | inr e => (lock_add w (spfile w h), inr e)   (* the _StatePointDict was constructed (lock entry) before load() raised *)
             | inl v =>
                 let w1 := lock_add (add_CF w (mkC v [hi]) (spfile w h)) (spfile w h) in
                 let w2 := register w1 (h_s h) (h_id h) v in
